@@ -80,3 +80,26 @@ def pmap(fn, items, chunksize=None):
     if len(items) < 24:
         return [fn(x) for x in items]
     return pool().map(fn, items, chunksize or max(1, len(items) // 64))
+
+
+def pmap_timeout(fn, items, timeout):
+    """Like pmap, but each task gets a wall-clock budget; a task that does not come back is
+    reported as {'timeout': True}.  Uses its own pool, which is terminated afterwards (stuck
+    workers included)."""
+    import multiprocessing as mp
+    items = list(items)
+    p = mp.get_context("fork").Pool(min(16, os.cpu_count() or 1))
+    try:
+        handles = [p.apply_async(fn, (x,)) for x in items]
+        out = []
+        import time
+        deadline_slack = time.time()
+        for h in handles:
+            try:
+                out.append(h.get(timeout=timeout))
+            except mp.TimeoutError:
+                out.append({"timeout": True})
+        return out
+    finally:
+        p.terminate()
+        p.join()
